@@ -147,6 +147,15 @@ def one_test(ctx, rng, DEF, S, cfg, record=None):
                         [g.B01, g.DIO, other, 1 - wp[3] if wp[3] in (0, 1) else 0])
             alias_written = acked_alias_write(DEF, g, tag, sa, wp, m, send(m)) or alias_written
             continue
+        if reg == 'port' and rng.random() < 0.3:
+            # the same port written under ANOTHER data type is another register of the board (the key is the
+            # triple data type / port type / port number): it must not disturb the one under test
+            # (seeded change C05-r5m3)
+            others = [d for d in g.dts if d != wp[0]]
+            if others:
+                send(H.build(DEF, 'SET_PORT', rng.random() < 0.5, sa, g.byte(), g.byte(),
+                             [rng.choice(others), wp[1], wp[2], g.byte()]))
+                continue
         m, desc = g.request(keys)
         if excluded(reg, wp, desc[0], m):
             continue
